@@ -7,6 +7,7 @@ import (
 	"os"
 	"runtime"
 	"sort"
+	"strconv"
 	"strings"
 	"time"
 
@@ -148,6 +149,15 @@ func accessorsST(s *gtfs.Static) string {
 	return fmt.Sprintf("%016x", sim.HashStrings(sb.String()))
 }
 
+// c18GiantOdds: one thorough run in this many is the giant one (VERIF_C18_GIANT_ODDS overrides it for
+// sensitivity experiments; the value is part of the batch configuration like the seed).
+var c18GiantOdds = func() int {
+	if n, err := strconv.Atoi(os.Getenv("VERIF_C18_GIANT_ODDS")); err == nil && n > 0 {
+		return n
+	}
+	return 800
+}()
+
 func runC18(t *sim.T, tier string) *sim.Violation {
 	// ---- shared inputs
 	nRT := t.Range(1, 3)
@@ -168,10 +178,23 @@ func runC18(t *sim.T, tier string) *sim.Violation {
 	}
 	nST := t.Choose(3)
 	staticHeavy := false
+	// Thorough tier, rarely: one archive with more than 2^16 different head signs. It is parsed once alone
+	// (the solo reference, which here comes first): process-wide tables that rotate or resize at such a size do
+	// so during that parse. Two tasks then parse it again in the state after the threshold, pre-empted row by
+	// row (tasks that merely follow one another are ordered for the race detector by the sync.Pool of
+	// decompressors inside archive/zip, so the overlap has to be real).
+	giant := tier == "thorough" && t.Chance(1, c18GiantOdds)
+	if giant {
+		nST = 1
+		t.Probe("giant-distinct-text-archive")
+	}
 	var stIn [][]byte
 	for i := 0; i < nST; i++ {
 		scfg := gen.DrawStaticCfg(t, false)
-		if t.Chance(1, 4) {
+		if giant {
+			scfg = gen.GiantDistinctCfg(t)
+		}
+		if !giant && t.Chance(1, 4) {
 			// long trips and many rows: per-trip work big enough for implementations to hand it to helpers
 			scfg.StopTimesPerTrip = t.Range(30, 70)
 			if scfg.Trips < 4 {
@@ -181,7 +204,7 @@ func runC18(t *sim.T, tier string) *sim.Violation {
 			staticHeavy = true
 		}
 		m := gen.GenStatic(t, scfg)
-		if t.Chance(1, 3) {
+		if !giant && t.Chance(1, 3) {
 			// archives that fail part-way (empty or torn member, missing column, ...): error paths of one
 			// caller run next to successful parses of the others
 			if t.Chance(1, 2) {
@@ -204,7 +227,7 @@ func runC18(t *sim.T, tier string) *sim.Violation {
 			}
 		}
 		z := m.Feed.Zip(gen.DrawZipOpts(t, len(m.Feed.Tables)))
-		if t.Chance(1, 8) {
+		if !giant && t.Chance(1, 8) {
 			// a member that cannot be opened at all (unsupported method, encrypted flag, bad sizes): open-error paths
 			if nz, d := gen.ZipHeaderFault(t, z); nz != nil {
 				z = nz
@@ -214,7 +237,7 @@ func runC18(t *sim.T, tier string) *sim.Violation {
 			}
 		}
 		stIn = append(stIn, z)
-		if t.Chance(1, 4) {
+		if !giant && t.Chance(1, 4) {
 			// a sibling archive whose header row differs only in how its text splits into cells
 			sib := &gen.StaticModel{Feed: m.Feed.Clone(), Cfg: m.Cfg}
 			if d := gen.MergeHeaderCells(t, sib); d != "" {
@@ -247,11 +270,17 @@ func runC18(t *sim.T, tier string) *sim.Violation {
 			sites[s] = true
 		}
 	}
+	if giant {
+		sites, allOn = map[string]bool{"csv.NextRow": true}, false
+	}
 	sched.SetSites(sites, allOn)
 	// yield sites inserted by the instrumenter (present when the check built against the instrumented copy)
 	sched.AutoSalt = uint32(t.Choose(1 << 30))
 	sched.AutoSyncThresh = []uint32{0, 65536, 32768, 65536}[t.Choose(4)]
 	sched.AutoFuncThresh = []uint32{0, 0, 1024, 4096, 16384}[t.Choose(5)]
+	if giant {
+		sched.AutoSyncThresh, sched.AutoFuncThresh = 0, 0
+	}
 	// Half of the runs wrap extension objects in the yield proxy (finer pre-emption, before and after
 	// each interface call); the other half pass the bundled extension objects as they are, so that
 	// library code that inspects the extension's dynamic type is exercised unwrapped too. The tagged
@@ -274,6 +303,10 @@ func runC18(t *sim.T, tier string) *sim.Violation {
 		maxTasks, maxSteps = 8, 6
 	}
 	nTasks := t.Range(2, maxTasks)
+	if giant {
+		// two identical calls after the solo one
+		nTasks, maxSteps = 2, 1
+	}
 	progs := make([][]c18Op, nTasks)
 	usePool := map[int]int{}
 	useIn := map[string]int{}
@@ -282,10 +315,10 @@ func runC18(t *sim.T, tier string) *sim.Violation {
 		n := t.Range(1, maxSteps)
 		for k := 0; k < n; k++ {
 			op := c18Op{}
-			if nST > 0 && (t.Chance(1, 4) || (staticHeavy && t.Chance(1, 2))) {
+			if giant || (nST > 0 && (t.Chance(1, 4) || (staticHeavy && t.Chance(1, 2)))) {
 				op.kind = 1
 				op.input = t.Choose(nST)
-				op.inherit = t.Chance(1, 2)
+				op.inherit = t.Chance(1, 2) && !giant
 				useIn[fmt.Sprintf("s%d", op.input)]++
 			} else {
 				op.input = t.Choose(nRT)
@@ -383,6 +416,14 @@ func runC18(t *sim.T, tier string) *sim.Violation {
 	// the opposite order, in a process that has parsed nothing else; their digest must be the worker's.
 	reverse := os.Getenv("VERIF_C18_ORDER") == "reverse"
 	reference := func() {
+		if giant {
+			// the three calls are the same call: one solo run serves as the reference of all of them
+			r := runOp(progs[0][0], false)
+			for i := range progs {
+				want[i] = []c18Result{r}
+			}
+			return
+		}
 		if reverse {
 			for i := len(progs) - 1; i >= 0; i-- {
 				want[i] = make([]c18Result, len(progs[i]))
@@ -399,7 +440,7 @@ func runC18(t *sim.T, tier string) *sim.Violation {
 		}
 	}
 	refFirst := t.Chance(1, 4)
-	if reverse {
+	if reverse || giant {
 		refFirst = true
 	}
 	if refFirst {
